@@ -177,6 +177,37 @@ def check_C04(ctx):
                    'lock order. distinct_nontrivial = histories with more than 10 events')
 
 
+def check_C17(ctx):
+    ctx.assumptions += ['a client holding two transactions at once is excluded (documented limitation, as the property says)',
+                        'the lifetime limit is exercised only in the thorough tier (it is 60 s for read-write transactions)',
+                        'gRPC-level variants (over-long key in TxGet, unknown handles) are covered by the service check C19',
+                        'liveness is model-checked; on the implementation it is the finite PROBE: a fresh read-write transaction is granted within 5 s']
+    tlc_mc(ctx, 'KevoTxn', 'MC_Txn.cfg', timeout=250)
+    tlc_mc(ctx, 'KevoTxn', 'MC_TxnLive.cfg', timeout=250)
+    # (1) registry scenarios; the begin time-out path is a coin flip per occurrence on defective code: several instances in parallel
+    scen = ['idle', 'conn', 'shutdown'] + ['timeout-rw'] * 4 + ['timeout-ro'] * 4
+    if not ctx.quick():
+        scen += ['ttl'] + ['timeout-rw'] * 8 + ['timeout-ro'] * 8
+    jobs = [(['txn-registry', '-scenario', s], {}, f'reg-{s}-{i}') for i, s in enumerate(scen)]
+    runs = run_jobs(ctx, jobs, workers=len(jobs))
+    judge(ctx, 'C17', runs, jobs, 'registry', rerun_plain(ctx))
+    ctx.samples = [runs[0], runs[3]]
+    # (2) double finish / use after finish / lock released when Commit and Rollback return: free-running histories
+    n = 16 if ctx.quick() else 150
+    fr, fj = free_runs(ctx, n, [3, 4, 6], 6, tagp='c17free')
+    judge(ctx, 'C17', fr, fj, 'free', rerun_plain(ctx))
+    selftest(ctx, fr)
+    if not any(e.get('e') == 'again' for r in fr for e in r):
+        raise Infra('no use-after-finish event recorded')
+    write_evidence(ctx, 'model_checking',
+                   'KevoTxn with the registry actions (BeginTimeout, Abandon, Reap) model-checked: UnlockByHolder, QuiescentLockFree and, under '
+                   'fairness of grants/clients/reaper, EveryTxEnds. Bound by recorded histories validated by TLC against TRACE_Txn: registry '
+                   'scenarios (abandoned transaction reaped by idle limit / connection cleanup / shutdown / lifetime limit; a begin that times '
+                   'out after 10 s while the lock is held, its late grant must be rolled back) each followed by the probe "a fresh read-write '
+                   'transaction is granted", and free-running client histories with double finish and use after finish (closed error, lock '
+                   'released exactly once, released when Commit/Rollback returns). distinct_nontrivial = histories with more than 10 events')
+
+
 def replay_saved(ctx, payload):
     if 'prog' in payload or 'site' in payload:
         return crash.replay_saved(ctx, payload)
